@@ -37,6 +37,67 @@ prop(
     min_counters={"quick": {"scalars_roundtrip": 1000000, "decode_inputs": 1000000}, "thorough": {"scalars_roundtrip": 1000000}},
 )
 
+prop(
+    "C13",
+    title="Expression evaluation is total and follows the documented operators",
+    technique="reference-evaluator runtime monitor (admissible result sets) + panic supervisor over bounded-exhaustive and random expression trees, built twice (literal-folded and lazy) and used as select/update/delete conditions; overflow-checked build",
+    rule="trees over the 18 operators + AND/OR and the 12-leaf battery: all depth-1 trees, depth-2 trees with one composite child "
+         "(1/40 slice quick, all thorough), random trees to depth 6; each evaluated with literal leaves (constant folding) and with "
+         "column leaves (lazy) and a sample as WHERE of select/update/delete; distinct = distinct tree shape (operators + leaf value classes); "
+         "non-trivial = both constructions were executed and compared with the reference set",
+    level_text="Runs the real Expr constructors/eval and the query executor on every small tree and a large random sample in the "
+               "overflow-checking build (where the arithmetic defects are panics) and in release; results are judged against a reference "
+               "evaluator that returns the set of results the documentation admits.",
+    level_note="Reference evaluator written from the operator docs; cross-type ordering comparisons only required to give 0/1; i32::MIN and '' "
+               "cannot be stored in cells, so their lazy forms are ~cMax and a literal.",
+    assumptions=[TRUST_MODEL],
+    design_ref="3/C13",
+    min_counters={"quick": {"depth1_trees": 2484, "used_as_update_condition": 1000}, "thorough": {"depth1_trees": 2484}},
+)
+
+prop(
+    "C17",
+    title="Language codes and tags map consistently",
+    technique="law-checking runtime monitor, exhaustive over all 65,536 codes and bounded-exhaustive over tag strings",
+    rule="all 65,536 codes; every tag in the image of tag(); 36 pinned LCID pairs; all ll / lll / ll-RR (and lll-RR in thorough) letter tags in "
+         "lower/upper case, mutated table tags and random strings; distinct = (law class, language part, resulting code)",
+    level_text="Exhaustive on the code side (finite domain fully enumerated), bounded-exhaustive on the tag side; every call goes through the public "
+               "from_code/code/from_tag/tag under a panic supervisor.",
+    level_note="The tag table is recovered as the image of tag(); pinned pairs come from the Windows LCID reference and only name entries the table claims.",
+    assumptions=["pinned identifier/tag pairs are transcribed correctly from the Windows LCID reference"],
+    design_ref="3/C17",
+    min_counters={"quick": {"codes_checked": 65536}, "thorough": {"codes_checked": 65536}},
+)
+
+prop(
+    "C18",
+    title="Creation times convert to and from Windows timestamps without drift",
+    technique="law-checking runtime monitor (drift < 100 ns, idempotence, monotonicity, saturation) through Package::summary_info_mut(), with a save+reopen sample",
+    rule="every tick within +-300 ticks of 1601-01-01, 1970-01-01 and tick 2^64-1 with sub-tick ns 0..199; platform SystemTime extremes; "
+         "uniform / log-uniform / clustered / modern random times sorted in blocks of 256; distinct = (class, magnitude bucket, sub-tick residue, tick mod 8)",
+    level_text="Millions of set/get executions on a live package with exact integer (i128 ns) oracles for the four laws; 1 in 4096 values also goes "
+               "through flush + reopen.",
+    level_note="SystemTime arithmetic of the platform is trusted.",
+    assumptions=["std::time::SystemTime arithmetic is exact on this platform"],
+    design_ref="3/C18",
+    min_counters={"quick": {"reopen_samples": 50}, "thorough": {"reopen_samples": 50}},
+)
+
+prop(
+    "C19",
+    title="Printed queries mean what the query objects mean",
+    technique="print -> independent precedence parser -> re-evaluation on a row battery (runtime differential monitor on to_string()); every parent/child operator pair enumerated",
+    rule="every (parent operator, child operator, side) triple over all 20 operators with column/literal leaves; depth-3 chains (one operator per "
+         "precedence level quick, all thorough); random trees to depth 6; random SELECT/INSERT/UPDATE/DELETE with nested joins; distinct = "
+         "three-level operator shape resp. statement shape; non-trivial = text was produced, parsed and compared",
+    level_text="Each printed text is re-read with the ladder the property states and compared with the object by evaluating both on all "
+               "value combinations (10 values per column, up to 3 columns exhaustively); violations are minimised to the culprit operator pair.",
+    level_note="Literal-only subtrees are folded by the library at construction (judged by C13); the object's meaning is taken with those literals as printed by the library.",
+    assumptions=["the harness parser implements the stated ladder (OR < AND < NOT < comparison < | < ^ < & < shifts < +- < */ < unary), left-associative", TRUST_MODEL],
+    design_ref="3/C19",
+    min_counters={"quick": {"operator_pair_trees": 3000, "statements_select": 500}, "thorough": {"operator_pair_trees": 3000}},
+)
+
 ALL_IDS = ["C%02d" % i for i in range(1, 21)]
 
 
